@@ -134,6 +134,20 @@ def start_failure_scripts(rng, n):
     return out
 
 
+def forced_close_scripts(rng, n):
+    """a running step is closed and its plugin does not answer (it ignores the cancel signal, or has no handler for it): the
+    step is forced down - and still reports exactly one completion and ends finished"""
+    out = []
+    for k in range(n):
+        handler = k % 2 == 0
+        acts = [{'op': 'provide', 'stage': 'deploy', 'lane': 0}, {'op': 'provide', 'stage': 'enabling', 'val': True, 'lane': 0},
+                {'op': 'provide', 'stage': 'starting', 'lane': 0}, {'op': 'sleep', 'ms': 25, 'lane': 1},
+                {'op': ['forceclose', 'close'][(k // 2) % 2], 'id': 'c1', 'lane': 1}]
+        script = {'a': {'deploy': {}, 'exec': {'hang': True, 'on_cancel': 'ignore', 'out': 'success'}}}
+        out.append(({'pstep': 'work' if handler else 'nowork', 'src': 'a', 'script': script, 'actions': acts, 'overlap': True, 'timeout_ms': 20000}, handler))
+    return out
+
+
 def stop_while_closing_scripts(rng, n):
     """a stop condition reaching a step (waiting at each of its blocking points, or running) in the same instant in which
     the step is closed for another reason"""
@@ -249,7 +263,7 @@ def run(ctx):
     rng = random.Random(ctx.seed * 104729 + 12)
     binary = ctx.binary()
     n = 40 if ctx.quick else 600
-    scs = [gen_script(rng, overlap=(i % 3 == 2)) for i in range(n)] + overlapped_close_scripts(rng, 8 if ctx.quick else 80) + close_during_completion_scripts(rng, 12 if ctx.quick else 90) + start_failure_scripts(rng, 4 if ctx.quick else 24) + stop_while_closing_scripts(rng, 8 if ctx.quick else 48)
+    scs = [gen_script(rng, overlap=(i % 3 == 2)) for i in range(n)] + overlapped_close_scripts(rng, 8 if ctx.quick else 80) + close_during_completion_scripts(rng, 12 if ctx.quick else 90) + start_failure_scripts(rng, 4 if ctx.quick else 24) + stop_while_closing_scripts(rng, 8 if ctx.quick else 48) + forced_close_scripts(rng, 4 if ctx.quick else 16)
     with cf.ThreadPoolExecutor(max_workers=max(2, vlib.NCPU - 2)) as ex:
         results = list(ex.map(lambda a: run_step(binary, a[1][0], ctx.work, 'st%04d' % a[0]), enumerate(scs)))
     cases = []
